@@ -501,6 +501,10 @@ func handleSUNION(params internal.HandlerFuncParams) ([]byte, error) {
 
 	values := params.GetValues(params.Context, keys.ReadKeys)
 	for key, value := range values {
+		// A key that does not exist contributes no members.
+		if value == nil {
+			continue
+		}
 		set, ok := value.(*Set)
 		if !ok {
 			return nil, fmt.Errorf("value at key %s is not a set", key)
@@ -530,6 +534,10 @@ func handleSUNIONSTORE(params internal.HandlerFuncParams) ([]byte, error) {
 
 	values := params.GetValues(params.Context, keys.ReadKeys)
 	for key, value := range values {
+		// A key that does not exist contributes no members.
+		if value == nil {
+			continue
+		}
 		set, ok := value.(*Set)
 		if !ok {
 			return nil, fmt.Errorf("value at key %s is not a set", key)
